@@ -133,7 +133,7 @@ func VerifC08_IdleCleanerKeepsUsedHandler() {
 	verif_SetClock(0)
 	v := newLiveSub(chain, 0)
 	v.s.idleHandlerTTL = 10 * time.Second
-	verif_Quiesce() // the background goroutines are up: the cleaner waits on its timer
+	verif_Quiesce()                           // the background goroutines are up: the cleaner waits on its timer
 	hnd0 := v.s.getOrCreateHandler(v.peer.ID) // created/used at t=0: idle until t=10
 	verif_SetClock(20)                        // the handler has been idle for longer than the TTL...
 	got, err := v.s.SyncAdChain(context.Background(), v.peer, WithHeadAdCid(chain[1]))
